@@ -849,5 +849,31 @@ func asWorldGen(r *Run, rng *Rng, w *asWorld, steps int) {
 		}
 		do("epoch")
 	}
+	if w.node != nil && len(w.agg.certs) > 0 && rng.Chance(60) {
+		// directed epilogue: everything is settled and recorded as settled; the node stops, its last record is replaced by one
+		// of a certificate the Agglayer has never seen (same height as the Agglayer's latest), and it starts again: it has
+		// to refuse, whatever the status of that record
+		do("status")
+		do("crash")
+		do("forge")
+		do("restart")
+		r.Count("branch:epilogue-forged-settled-record")
+	} else if w.node != nil && len(w.agg.certs) > 0 {
+		// directed epilogue: the last certificate goes in error and its replacement's record cannot be written (the INSERT of
+		// the save fails while a row of that height exists): the old row must survive the failed save
+		if last := w.agg.certs[len(w.agg.certs)-1]; last.status == agglayertypes.Settled {
+			l2++
+			do(fmt.Sprintf("l2blk %d b:0:%d", l2, rng.U64()%1000000))
+			do("epoch")
+		}
+		if c := openCert(); c != nil {
+			do(fmt.Sprintf("move %d E", c.id))
+			do("status")
+			do("savefault 3")
+			do("epoch")
+			do("epoch")
+			r.Count("branch:epilogue-save-fault-on-replacement")
+		}
+	}
 	do("end")
 }
